@@ -1,6 +1,416 @@
-import Mouette.Model.UnionFind
-import Mouette.Model.PQueue
+import Mouette.Lemmas.UnionFind
+import Mouette.Lemmas.PQueue
+/-!
+# C20 — union-find and priority queue
+
+Property theorems only.  Every theorem is followed by an `example` showing that its hypotheses are
+satisfiable on a concrete, non-trivial state / history (non-vacuity).
+
+Vocabulary (defined in `Mouette/Lemmas/UnionFind.lean`, `Mouette/Lemmas/PQueue.lean`):
+* `run ops` — state after the history `ops : List Op` (adds, unions, and the three queries, which
+  mutate `par` through path halving);
+* `present ops` — elements added by `add x` or mentioned by `union x y`;
+* `Joined ops a b` — the equivalence closure of the pairs `(x, y)` of all `union x y` in `ops`
+  ("a chain of unions joins `a` and `b`");
+* `Inv s` — representation invariant; `classOf s x` — root index of the class of element `x`;
+* `PopOk q e q'` — `e` is a pending pair of minimum priority and `q'` is `q` minus one `e`.
+-/
 namespace Mouette.Props.C20
--- placeholder; replaced by the proved theorems
-theorem placeholder : Mouette.UF.init.nElts = 0 := rfl
+open Mouette.UF Mouette.PQ
+
+/-- the history used in the non-vacuity examples: three unions building a tree of depth 2
+(`3 → 2 → 0` in `par = [0,0,0,2,4]`), a late add, a repeated add -/
+private def hist : List Op := [.union 1 2, .union 3 4, .union 2 4, .add 9, .add 1]
+
+/-! ## Union-find: invariant, termination -/
+
+/-- The empty structure satisfies the invariant. -/
+theorem inv_init : Inv init := UF.inv_init
+
+example : init.elts = [] ∧ init.nComps = 0 := by decide
+
+/-- Every operation — `add`, `union`, and the path-halving queries — preserves the invariant. -/
+theorem inv_step {s : State} (h : Inv s) (op : Op) : Inv (step s op) := UF.inv_step h op
+
+/-- Every reachable state satisfies the invariant. -/
+theorem inv_run (ops : List Op) : Inv (run ops) := UF.inv_run ops
+
+-- a reachable state with a non-trivial forest; the query `find 4` really rewrites `par`
+example : (run hist).par = [0, 0, 0, 2, 4] ∧ (step (run hist) (.find 4)).par = [0, 0, 0, 0, 4] := by
+  decide
+example : Inv (step (run hist) (.find 4)) := inv_step (inv_run hist) _
+
+/-- `find` on a present element terminates within the fuel `par.length`, returns a root index in
+range (the root of the element's class), and leaves a state satisfying the invariant. -/
+theorem find_root {s : State} (h : Inv s) {x : Nat} (hx : x ∈ s.elts) :
+    ∃ s' r, find s x = some (s', r) ∧ r < s.elts.length ∧ parent s'.par r = r ∧
+      r = classOf s x ∧ Inv s' := by
+  obtain ⟨s', r, hf, i', pe, hr, hlt⟩ := find_spec h hx
+  exact ⟨s', r, hf, hlt, (pe.par.root_iff r).mpr hr.isRoot,
+    ((rootOf_eq_iff h (idxOf_lt hx) r).mpr hr).symm, i'⟩
+
+example : 4 ∈ (run hist).elts ∧ (find (run hist) 4).map Prod.snd = some 0 := by decide
+
+/-- `find` raises (`none`) exactly on absent elements. -/
+theorem find_none_iff (s : State) (x : Nat) : find s x = none ↔ x ∉ s.elts :=
+  find_eq_none_iff s x
+
+example : find (run hist) 7 = none ∧ find (run hist) 9 ≠ none := by decide
+
+/-! ## Union-find: refinement of the abstract partition -/
+
+/-- The stored elements are exactly those added or mentioned by a union. -/
+theorem elts_eq_present (ops : List Op) (x : Nat) : x ∈ (run ops).elts ↔ x ∈ present ops :=
+  (refines_run ops).mem x
+
+example : (run hist).elts = [1, 2, 3, 4, 9] ∧ present hist = [1, 2, 3, 4, 2, 4, 9, 1] := by decide
+
+/-- MAIN: after any history, `connected x y` on present elements succeeds and answers `true`
+exactly when a chain of unions joins `x` and `y`. -/
+theorem uf_refines (ops : List Op) (x y : Nat) (hx : x ∈ (run ops).elts) (hy : y ∈ (run ops).elts) :
+    ∃ s' b, connected (run ops) x y = some (s', b) ∧ (b = true ↔ Joined ops x y) := by
+  obtain ⟨s', b, hc, _, _, hb⟩ := connected_spec (UF.inv_run ops) hx hy
+  exact ⟨s', b, hc, hb.trans ((refines_run ops).cls x y hx hy)⟩
+
+/-- `connected` raises exactly when one of the elements is absent. -/
+theorem connected_none_iff (s : State) (x y : Nat) :
+    connected s x y = none ↔ x ∉ s.elts ∨ y ∉ s.elts := connected_eq_none_iff s x y
+
+example : (connected (run hist) 1 4).map Prod.snd = some true ∧
+    (connected (run hist) 1 9).map Prod.snd = some false ∧ connected (run hist) 1 7 = none := by
+  decide
+-- both sides of the equivalence occur: 1 and 4 are joined by a chain of three unions, 1 and 9 are not
+example : Joined hist 1 4 :=
+  ((EqvClosure.rel (by decide : ((1, 2) : Nat × Nat) ∈ unionPairs hist)).trans
+    (EqvClosure.rel (by decide : ((2, 4) : Nat × Nat) ∈ unionPairs hist)))
+example : ¬ Joined hist 1 9 := by
+  obtain ⟨s', b, hc, hb⟩ := uf_refines hist 1 9 (by decide) (by decide)
+  intro hj
+  have hb' := hb.mpr hj
+  subst hb'
+  have : (connected (run hist) 1 9).map Prod.snd = some true := by rw [hc]; rfl
+  revert this; decide
+
+/-- The pure observer agrees: two present elements have the same class root iff they are joined. -/
+theorem classOf_eq_iff_joined (ops : List Op) (x y : Nat) (hx : x ∈ present ops)
+    (hy : y ∈ present ops) : classOf (run ops) x = classOf (run ops) y ↔ Joined ops x y :=
+  (refines_run ops).cls x y ((elts_eq_present ops x).mpr hx) ((elts_eq_present ops y).mpr hy)
+
+example : classOf (run hist) 1 = classOf (run hist) 4 ∧ classOf (run hist) 1 ≠ classOf (run hist) 9 := by
+  decide
+
+/-! ## Counts and root set -/
+
+/-- `n_elts` is the number of stored elements, which are pairwise distinct, i.e. the number of
+distinct present elements; `n_comps` is the number of root indices. -/
+theorem counts (ops : List Op) :
+    (run ops).nElts = (run ops).elts.length ∧ (run ops).elts.Nodup ∧
+    (run ops).nElts = (present ops).eraseDups.length ∧
+    (run ops).nComps = ((List.range (run ops).elts.length).filter
+      (fun i => decide (parent (run ops).par i = i))).length := by
+  have inv := UF.inv_run ops
+  refine ⟨inv.nEltsEq, inv.nodup, ?_, nComps_eq_rootIdxs inv⟩
+  rw [inv.nEltsEq]
+  apply List.Perm.length_eq
+  rw [List.perm_ext_iff_of_nodup inv.nodup (nodup_eraseDups _ _ (Nat.le_refl _))]
+  intro x
+  rw [List.mem_eraseDups]
+  exact elts_eq_present ops x
+
+example : (run hist).nElts = 5 ∧ (run hist).nComps = 2 := by decide
+
+/-- The component count describes the partition: there is a list of `n_comps` present elements,
+pairwise *not* joined, such that every present element is joined to one of them — i.e. `n_comps`
+is the number of `Joined`-classes among the present elements. -/
+theorem nComps_counts_classes (ops : List Op) :
+    ∃ reps : List Nat, reps.length = (run ops).nComps ∧
+      (∀ e, e ∈ reps → e ∈ present ops) ∧
+      (∀ x, x ∈ present ops → ∃ e, e ∈ reps ∧ Joined ops x e) ∧
+      reps.Pairwise (fun a b => ¬ Joined ops a b) := by
+  have inv := UF.inv_run ops
+  have rf := refines_run ops
+  obtain ⟨h1, h2, h3, h4⟩ := reps_spec inv
+  refine ⟨_, h1, fun e he => (rf.mem e).mp (h2 e he), ?_, ?_⟩
+  · intro x hx
+    have hx' := (rf.mem x).mpr hx
+    obtain ⟨e, he, hc⟩ := h3 x hx'
+    exact ⟨e, he, (rf.cls x e hx' (h2 e he)).mp hc⟩
+  · refine h4.imp_of_mem ?_
+    intro a b ha hb hne hj
+    exact hne ((rf.cls a b (h2 a ha) (h2 b hb)).mpr hj)
+
+example : (rootIdxs (run hist)).map (eltAt (run hist)) = [1, 9] := by decide
+
+/-- Each class contains exactly one root: the class root of a stored element is a root index in
+range, and every root index is the class root of the element stored there (so root indices and
+classes are in bijection). -/
+theorem one_root_per_class {s : State} (h : Inv s) :
+    (∀ x, x ∈ s.elts → classOf s x < s.elts.length ∧ parent s.par (classOf s x) = classOf s x) ∧
+    (∀ r, r < s.elts.length → parent s.par r = r → eltAt s r ∈ s.elts ∧ classOf s (eltAt s r) = r) :=
+  ⟨fun _ hx => ⟨classOf_lt h hx, rootOf_isRoot h (idxOf_lt hx)⟩,
+   fun _ hr hp => ⟨eltAt_mem hr, classOf_eltAt_root h (mem_rootIdxs.mpr ⟨hr, hp⟩)⟩⟩
+
+example : rootIdxs (run hist) = [0, 4] ∧ eltAt (run hist) 4 = 9 ∧ classOf (run hist) 9 = 4 ∧
+    classOf (run hist) 3 = 0 := by decide
+
+/-- The root set reported by `roots()` (`rootsList`) is exactly the set of root indices, the
+`i`-th reported root is the class root of the `i`-th element, and computing it does not change
+the partition. -/
+theorem roots_spec {s : State} (h : Inv s) :
+    (rootsList s).2 = s.elts.map (classOf s) ∧
+    (∀ r, r ∈ (rootsList s).2 ↔ (r < s.elts.length ∧ parent s.par r = r)) ∧
+    Inv (rootsList s).1 ∧ PEquiv s (rootsList s).1 :=
+  ⟨rootsList_snd h, fun r => (mem_rootsList h r).trans mem_rootIdxs, (rootsList_spec h).1,
+    (rootsList_spec h).2.1⟩
+
+example : (rootsList (run hist)).2 = [0, 0, 0, 0, 4] := by decide
+
+/-! ## Queries never change the partition -/
+
+/-- A query (`find`, `connected`, `component`) leaves the elements, both counters and every
+`connected` answer unchanged (it may only rearrange `par` by path halving). -/
+theorem queries_preserve_partition {s : State} (h : Inv s) {op : Op} (hq : op.isQuery = true) :
+    (step s op).elts = s.elts ∧ (step s op).nElts = s.nElts ∧ (step s op).nComps = s.nComps ∧
+    (∀ x y, (connected (step s op) x y).map Prod.snd = (connected s x y).map Prod.snd) ∧
+    (∀ x, x ∈ s.elts → classOf (step s op) x = classOf s x) := by
+  obtain ⟨i', pe⟩ := step_query h hq
+  exact ⟨pe.elts, pe.nElts, pe.nComps, fun x y => connected_answer_pequiv h i' pe x y,
+    fun x hx => pe.classOf h i' hx⟩
+
+-- the query really mutates the state, yet the observable partition is the same
+example : step (run hist) (.find 4) ≠ run hist ∧ step (run hist) (.component 4) ≠ run hist ∧
+    step (run hist) (.connected 4 9) ≠ run hist := by decide
+
+/-- History form: inserting queries anywhere in a history changes no later answer — the partition
+after `ops` only depends on the adds and unions. -/
+theorem joined_ignores_queries (ops : List Op) (x y : Nat) :
+    Joined ops x y ↔ Joined (ops.filter (fun op => !op.isQuery)) x y := by
+  apply Joined_of_pairs_eq
+  induction ops with
+  | nil => rfl
+  | cons op ops ih => cases op <;> simp [Op.isQuery, unionPairs, ih]
+
+example : hist.filter (fun op => !op.isQuery) = hist := by decide
+
+/-! ## Component listing -/
+
+/-- `component x` on a present element returns exactly the stored elements in the class of `x`
+(in `_elts` order, hence without repetition), and does not change the partition. -/
+theorem component_spec {s : State} (h : Inv s) {x : Nat} {s' : State} {l : List Nat}
+    (hc : component s x = some (s', l)) :
+    (∀ e, e ∈ l ↔ (e ∈ s.elts ∧ classOf s e = classOf s x)) ∧ l.Nodup ∧ x ∈ l ∧
+      Inv s' ∧ PEquiv s s' := by
+  have hx : x ∈ s.elts := by
+    apply Classical.byContradiction
+    intro hn
+    rw [component_of_not_mem hn] at hc; cases hc
+  obtain ⟨s2, h2, i2, pe⟩ := component_spec' h hx
+  rw [h2] at hc
+  injection hc with hc
+  injection hc with e1 e2
+  subst e1 e2
+  refine ⟨fun e => by simp [classOf], ?_, by simp [hx], i2, pe⟩
+  exact List.Nodup.sublist List.filter_sublist h.nodup
+
+/-- `component` raises exactly on absent elements. -/
+theorem component_none_iff (s : State) (x : Nat) : component s x = none ↔ x ∉ s.elts :=
+  component_eq_none_iff s x
+
+/-- History form: after any history the component of a present `x` lists exactly the present
+elements joined to `x` by a chain of unions. -/
+theorem component_joined (ops : List Op) {x : Nat} (hx : x ∈ present ops) :
+    ∃ s' l, component (run ops) x = some (s', l) ∧
+      ∀ e, e ∈ l ↔ (e ∈ present ops ∧ Joined ops e x) := by
+  have inv := UF.inv_run ops
+  have rf := refines_run ops
+  have hx' := (rf.mem x).mpr hx
+  obtain ⟨s', h', _⟩ := component_spec' inv hx'
+  refine ⟨s', _, h', fun e => ?_⟩
+  rw [(component_spec inv h').1 e]
+  constructor
+  · rintro ⟨he, hc⟩; exact ⟨(rf.mem e).mp he, (rf.cls e x he hx').mp hc⟩
+  · rintro ⟨he, hj⟩
+    have he' := (rf.mem e).mpr he
+    exact ⟨he', (rf.cls e x he' hx').mpr hj⟩
+
+example : (component (run hist) 4).map Prod.snd = some [1, 2, 3, 4] ∧
+    (component (run hist) 9).map Prod.snd = some [9] ∧ component (run hist) 7 = none := by decide
+
+/-- Every element belongs to exactly one component: the components of two elements are either the
+same list or disjoint, and each element is in its own component. -/
+theorem component_partition {s : State} (h : Inv s) {x y : Nat} {sx sy : State} {lx ly : List Nat}
+    (hx : component s x = some (sx, lx)) (hy : component s y = some (sy, ly)) :
+    x ∈ lx ∧ ((∃ e, e ∈ lx ∧ e ∈ ly) → lx = ly) ∧ ((¬ ∃ e, e ∈ lx ∧ e ∈ ly) ∨ lx = ly) := by
+  have hxm : x ∈ s.elts := by
+    apply Classical.byContradiction
+    intro hn
+    rw [component_of_not_mem hn] at hx; cases hx
+  have hym : y ∈ s.elts := by
+    apply Classical.byContradiction
+    intro hn
+    rw [component_of_not_mem hn] at hy; cases hy
+  have hmemx := (component_spec h hx).1
+  have hmemy := (component_spec h hy).1
+  obtain ⟨_, ex, _⟩ := component_spec' h hxm
+  obtain ⟨_, ey, _⟩ := component_spec' h hym
+  rw [ex] at hx; rw [ey] at hy
+  injection hx with hx; injection hx with _ hx
+  injection hy with hy; injection hy with _ hy
+  have key : (∃ e, e ∈ lx ∧ e ∈ ly) → lx = ly := by
+    rintro ⟨e, h1, h2⟩
+    have c1 := ((hmemx e).mp h1).2
+    have c2 := ((hmemy e).mp h2).2
+    rw [← hx, ← hy]
+    show List.filter (fun e => decide (classOf s e = classOf s x)) s.elts
+      = List.filter (fun e => decide (classOf s e = classOf s y)) s.elts
+    rw [← c1, ← c2]
+  refine ⟨(component_spec h (by rw [ex, hx])).2.2.1, key, ?_⟩
+  by_cases hex : ∃ e, e ∈ lx ∧ e ∈ ly
+  · exact Or.inr (key hex)
+  · exact Or.inl hex
+
+example : (component (run hist) 1).map Prod.snd = (component (run hist) 4).map Prod.snd ∧
+    (component (run hist) 1).map Prod.snd ≠ (component (run hist) 9).map Prod.snd := by decide
+
+/-- `components()` lists each class once: its length is `n_comps`, every listed component is the
+full class of one of its members, and every stored element lies in exactly one listed component. -/
+theorem components_spec {s : State} (h : Inv s) :
+    ∃ s' cs, components s = (s', cs) ∧ Inv s' ∧ PEquiv s s' ∧ cs.length = s.nComps ∧
+      (∀ c, c ∈ cs → ∃ x, x ∈ c ∧ ∀ e, e ∈ c ↔ (e ∈ s.elts ∧ classOf s e = classOf s x)) ∧
+      (∀ e, e ∈ s.elts → ∃ c, (c ∈ cs ∧ e ∈ c) ∧ ∀ c', (c' ∈ cs ∧ e ∈ c') → c' = c) := by
+  obtain ⟨s', hc, i', pe⟩ := UF.components_spec h
+  refine ⟨s', _, hc, i', pe, ?_, ?_, ?_⟩
+  · rw [List.length_map, (eraseDups_roots_perm h).length_eq, nComps_eq_rootIdxs h]
+  · intro c hc
+    obtain ⟨r, hr, rfl⟩ := List.mem_map.mp hc
+    rw [List.mem_eraseDups] at hr
+    obtain ⟨x, hx, rfl⟩ := List.mem_map.mp hr
+    exact ⟨x, mem_classList.mpr ⟨hx, rfl⟩, fun e => mem_classList⟩
+  · intro e he
+    refine ⟨classList s (classOf s e), ⟨List.mem_map.mpr ⟨classOf s e, ?_, rfl⟩,
+      mem_classList.mpr ⟨he, rfl⟩⟩, ?_⟩
+    · rw [List.mem_eraseDups]; exact List.mem_map.mpr ⟨e, he, rfl⟩
+    · rintro c' ⟨hc', hec'⟩
+      obtain ⟨r, _, rfl⟩ := List.mem_map.mp hc'
+      rw [(mem_classList.mp hec').2]
+
+example : (components (run hist)).2 = [[1, 2, 3, 4], [9]] := by decide
+
+/-- `component_mapping()` maps exactly the stored elements, each to the list of its class. -/
+theorem component_mapping_spec {s : State} (h : Inv s) :
+    ∃ s' m, componentMapping s = (s', m) ∧ Inv s' ∧ PEquiv s s' ∧
+      ∀ x c, (x, c) ∈ m ↔ (x ∈ s.elts ∧ c = classList s (classOf s x)) := by
+  obtain ⟨s', hc, i', pe⟩ := componentMapping_spec h
+  exact ⟨s', _, hc, i', pe, fun x c => mem_componentMapping_list x c⟩
+
+example : (componentMapping (run hist)).2 =
+    [(1, [1, 2, 3, 4]), (2, [1, 2, 3, 4]), (3, [1, 2, 3, 4]), (4, [1, 2, 3, 4]), (9, [9])] := by
+  decide
+
+/-! ## Corollaries: repeated adds, self unions, unions of absent elements -/
+
+/-- Adding twice is adding once; adding a present element changes nothing. -/
+theorem add_idempotent (s : State) (x : Nat) :
+    add (add s x) x = add s x ∧ (x ∈ s.elts → add s x = s) :=
+  ⟨UF.add_idempotent s x, fun h => add_of_mem h⟩
+
+example : add (run hist) 3 = run hist ∧ add (run hist) 7 ≠ run hist := by decide
+
+/-- A self union only makes sure the element is present: the state equals `add s x` up to path
+halving, so elements, counters and all `connected` answers are those of `add s x`; and in the
+history the pair `(x, x)` joins nothing new. -/
+theorem union_self_noop_on_partition {s : State} (h : Inv s) (x : Nat) :
+    PEquiv (add s x) (union s x x) ∧
+    (∀ u v, (connected (union s x x) u v).map Prod.snd = (connected (add s x) u v).map Prod.snd) ∧
+    (∀ (ops : List Op) (u v : Nat), Joined (ops ++ [.union x x]) u v ↔ Joined ops u v) := by
+  have pe := union_self h x
+  exact ⟨pe, fun u v => connected_answer_pequiv (inv_add h x) (UF.inv_step h (.union x x)) pe u v,
+    fun ops u v => Joined_union_self ops x u v⟩
+
+example : (union (run hist) 3 3).nComps = (run hist).nComps ∧
+    (union (run hist) 7 7).elts = [1, 2, 3, 4, 9, 7] := by decide
+
+/-- A union adds its absent arguments (as `add` would) before merging. -/
+theorem union_absent_adds {s : State} (h : Inv s) (x y : Nat) :
+    (union s x y).elts = (add (add s x) y).elts ∧ x ∈ (union s x y).elts ∧ y ∈ (union s x y).elts ∧
+    (∀ z, z ∈ (union s x y).elts ↔ (z ∈ s.elts ∨ z = x ∨ z = y)) ∧
+    (union s x y).nElts = (union s x y).elts.length :=
+  ⟨(union_spec h x y).2.1, (union_elts h x y x).mpr (Or.inr (Or.inl rfl)),
+    (union_elts h x y y).mpr (Or.inr (Or.inr rfl)), union_elts h x y,
+    (UF.inv_step h (.union x y)).nEltsEq⟩
+
+example : (union (run hist) 7 8).elts = [1, 2, 3, 4, 9, 7, 8] ∧ (union (run hist) 7 8).nComps = 3 := by
+  decide
+
+/-! ## Priority queue (for every tie-breaking choice) -/
+
+/-- `Prio.le` is a total preorder on `Rat ∪ {-∞, +∞}`. -/
+theorem le_refl (a : Prio) : Prio.le a a = true := Prio.le_refl a
+theorem le_total (a b : Prio) : Prio.le a b = true ∨ Prio.le b a = true := Prio.le_total a b
+theorem le_trans {a b c : Prio} (h1 : Prio.le a b = true) (h2 : Prio.le b c = true) :
+    Prio.le a c = true := Prio.le_trans h1 h2
+
+example : Prio.le .negInf (.fin 0) = true ∧ Prio.le (.fin (-2)) (.fin 3) = true ∧
+    Prio.le .posInf (.fin 3) = false := by decide
+
+/-- a queue with ties, both infinities and a negative priority -/
+private def q0 : Queue := [(1, .fin 3), (2, .negInf), (3, .fin 3), (4, .posInf), (5, .fin (-2))]
+
+/-- The model's `pop` hands out a pending pair of minimum priority and removes exactly it. -/
+theorem pop_ok {q q' : Queue} {e : Nat × Prio} (h : pop q = some (e, q')) : PopOk q e q' :=
+  PQ.pop_ok h
+
+example : pop q0 = some ((2, .negInf), [(1, .fin 3), (3, .fin 3), (4, .posInf), (5, .fin (-2))]) := by
+  decide
+
+/-- `pop` raises (`none`) exactly on the empty queue. -/
+theorem pop_none_iff (q : Queue) : pop q = none ↔ q = [] := PQ.pop_none_iff q
+
+/-- `empty` is correct. -/
+theorem empty_correct (q : Queue) : empty q = true ↔ q = [] := PQ.empty_correct q
+
+example : empty q0 = false ∧ empty (push [] 1 .posInf) = false ∧ empty [] = true := by decide
+
+/-- Draining: whatever valid pops are used (any tie-breaking), the pairs handed out until the queue
+is empty are a permutation of the pending pairs — each pushed item exactly once. -/
+theorem drain_perm {q : Queue} {out : List (Nat × Prio)} (h : Drains q out) : out.Perm q := h.perm
+
+/-- … and they come out in non-decreasing priority order. -/
+theorem drain_sorted {q : Queue} {out : List (Nat × Prio)} (h : Drains q out) :
+    out.Pairwise (fun a b => Prio.le a.2 b.2 = true) := h.sorted
+
+/-- Every queue can be drained (by the model's own `pop`), so `Drains` is never vacuous. -/
+theorem drain_exists (q : Queue) : ∃ out, Drains q out := drains_exists q.length q rfl
+
+-- a drain of `q0` that breaks the tie `(1,3)`/`(3,3)` the *other* way than the model's `pop`
+example : Drains q0 [(2, .negInf), (5, .fin (-2)), (3, .fin 3), (1, .fin 3), (4, .posInf)] := by
+  refine .cons (q' := [(1, .fin 3), (3, .fin 3), (4, .posInf), (5, .fin (-2))]) ⟨by decide, by decide, by decide⟩ ?_
+  refine .cons (q' := [(1, .fin 3), (3, .fin 3), (4, .posInf)]) ⟨by decide, by decide, by decide⟩ ?_
+  refine .cons (q' := [(1, .fin 3), (4, .posInf)]) ⟨by decide, by decide, by decide⟩ ?_
+  refine .cons (q' := [(4, .posInf)]) ⟨by decide, by decide, by decide⟩ ?_
+  exact .cons (q' := []) ⟨by decide, by decide, by decide⟩ .nil
+
+/-- Mixed histories: for any interleaving of pushes and valid pops starting from the empty queue,
+popped ++ pending is a permutation of pushed — every popped pair was pushed, none is handed out
+twice, and what is pending is exactly pushed minus popped. -/
+theorem trace_perm {evs : List Ev} {q' : Queue} (h : Trace [] evs q') :
+    (popped evs ++ q').Perm (pushed evs) := by
+  have := h.perm
+  rwa [List.nil_append] at this
+
+/-- General form from an arbitrary initial pending list. -/
+theorem trace_perm_from {q q' : Queue} {evs : List Ev} (h : Trace q evs q') :
+    (popped evs ++ q').Perm (q ++ pushed evs) := h.perm
+
+/-- In a trace every pop hands out a pending pair of minimum priority (definitionally, by `PopOk`),
+and the model's `pop` can always take the pop steps. -/
+theorem trace_pop_model {q q1 q' : Queue} {e : Nat × Prio} {evs : List Ev}
+    (hp : pop q = some (e, q1)) (h : Trace q1 evs q') : Trace q (.pop e :: evs) q' :=
+  .pop (PQ.pop_ok hp) h
+
+example : Trace [] [.push 1 (.fin 3), .push 2 (.fin 1), .pop (2, .fin 1), .push 3 .negInf,
+    .pop (3, .negInf)] [(1, .fin 3)] := by
+  refine .push (.push (.pop (q1 := [(1, .fin 3)]) ⟨by decide, by decide, by decide⟩ ?_))
+  exact .push (.pop (q1 := [(1, .fin 3)]) ⟨by decide, by decide, by decide⟩ (.nil _))
+
 end Mouette.Props.C20
